@@ -173,6 +173,10 @@ class NsHandler:
         data = self.prefix2interwiki.get(prefix)
         if data is None:
             return None
+        if self._find_namespace(prefix)[0]:
+            # e.g. "Wikipedia:" is an interwiki prefix and the project namespace of
+            # the wiki: MediaWiki resolves namespaces first
+            return None
 
         suffix = suffix.strip(" _\n\t\r").replace(" ", "_")
         retval = ILink()
